@@ -114,6 +114,8 @@ def sweep_quantizers(tier, seed):
 def _aggs():
   k = jax.random.PRNGKey(7)
   return {'uniform': (cp.uniform_stochastic_quantizer(4, k), math.log2(4), lambda p, key: cp.uniform_stochastic_quantize_pytree(p, 4, key)),
+          'arithmetic': (cp.uniform_stochastic_quantizer(4, k, 'arithmetic'), None,
+                         lambda p, key: cp.uniform_stochastic_quantize_pytree(p, 4, key)),
           'rotated': (cp.rotated_uniform_stochastic_quantizer(4, k), math.log2(4), None),
           'drive': (cp.structured_drive_quantizer(k), 1.0, None),
           'terngrad': (cp.terngrad_quantizer(k), math.log2(3), lambda p, key: cp.terngrad_quantize_pytree(p, key))}
@@ -131,15 +133,26 @@ def check_aggregators(inp):
   seen_keys = [np.asarray(state.rng).tolist()]
   prev_out = None
   size, leaves = 40, 2
+  all_clients = clients
   for rnd in range(int(inp.get('rounds', 3))):
     st_key = state.rng
+    if name == 'arithmetic':   # cohorts of different sizes: a round's bit count is the mean over THIS round's clients
+      clients = all_clients[:max(1, nc - rnd % 2)]
     out, new_state = agg.apply(iter(clients), state)
     for leaf in jax.tree_util.tree_leaves(out):
       if not np.all(np.isfinite(np.asarray(leaf))):
         return f'{name}: aggregate contains NaN/Inf'
-    want_bits = per_param * size + 64 * leaves
+    if per_param is None:
+      # documented: the mean over this round's clients of the arithmetic code length of their quantized trees
+      _, use = jax.random.split(st_key)
+      seq = hk.PRNGSequence(use)
+      per_client = [sum(float(cp.arithmetic_encoding_num_bits(l)) for l in jax.tree_util.tree_leaves(quant(p, next(seq))))
+                    for _, p, _ in clients]
+      want_bits = sum(per_client) / len(per_client)
+    else:
+      want_bits = per_param * size + 64 * leaves
     got = float(new_state.num_bits) - float(state.num_bits)
-    if abs(got - want_bits) > 1e-3:
+    if abs(got - want_bits) > 1e-3 * max(1.0, abs(want_bits) * 1e-2):
       return f'{name}: round {rnd} adds {got} bits, documented formula gives {want_bits}'
     key = np.asarray(new_state.rng).tolist()
     if key in seen_keys:
@@ -153,13 +166,9 @@ def check_aggregators(inp):
       for a, b in zip(jax.tree_util.tree_leaves(out), jax.tree_util.tree_leaves(want)):
         if not np.allclose(np.asarray(a), np.asarray(b), rtol=1e-5, atol=1e-6):
           return f'{name}: the aggregate is not the weighted mean of the per-client quantized trees (keys split(state.rng)[1] sequence)'
-      for i in range(nc):
-        for j in range(i + 1, nc):
-          same_in = all(np.array_equal(np.asarray(x), np.asarray(y)) for x, y in zip(
-              jax.tree_util.tree_leaves(clients[i][1]), jax.tree_util.tree_leaves(clients[j][1])))
     # exact mean bound for the grid quantizers
     exact = tree_util.tree_mean(iter([(p, w) for _, p, w in clients]))
-    if name == 'uniform':
+    if name in ('uniform', 'arithmetic'):
       for k_ in ('w', 'b'):
         bound = max(float(p[k_].max() - p[k_].min()) / 3 for _, p, _ in clients)
         if float(jnp.abs(out[k_] - exact[k_]).max()) > bound + 1e-5:
@@ -180,7 +189,7 @@ def check_aggregators(inp):
     if len(lv) <= 2:   # positive inputs: levels {m, M} resp. {0, s}; independent noise adds the midpoint
       return f'{name}: two clients with the same update get the same quantization noise (their mean stays on the quantization levels)'
   if quant is not None:
-    same = [(b'a', clients[0][1], 1.0), (b'b', clients[0][1], 1.0)]
+    same = [(b'a', all_clients[0][1], 1.0), (b'b', all_clients[0][1], 1.0)]
     _, use = jax.random.split(agg.init().rng)
     seq = hk.PRNGSequence(use)
     q1, q2 = quant(same[0][1], next(seq)), quant(same[1][1], next(seq))
@@ -189,7 +198,7 @@ def check_aggregators(inp):
 
 
 def sweep_aggregators(tier, seed):
-  for a in ('uniform', 'rotated', 'drive', 'terngrad'):
+  for a in ('uniform', 'arithmetic', 'rotated', 'drive', 'terngrad'):
     yield dict(agg=a, seed=seed, clients=3, rounds=3)
     if tier == 'thorough':
       yield dict(agg=a, seed=seed + 1, clients=1, rounds=5)
